@@ -201,3 +201,86 @@ def c18_croo(values, times):
         else:
             break
     return {"violates": got != exp, "croo": got, "expected": exp}
+
+
+# ------------------------------------------------------------------ C19
+def c19_get_indexer(labels, x, method):
+    import pandas as pd
+    return {"pos": int(pd.Index(labels).get_indexer([x], method=method)[0])}
+
+
+def _locate(labels, x, method):
+    import bisect
+    if method is None:
+        return labels.index(x) if x in labels else None
+    if method == "ffill":
+        k = bisect.bisect_right(labels, x) - 1
+        return k if k >= 0 else None
+    if method == "bfill":
+        k = bisect.bisect_left(labels, x)
+        return k if k < len(labels) else None
+    best = min(range(len(labels)), key=lambda i: (abs(labels[i] - x), -i))
+    return best
+
+
+def c19_iteragg(L, labels, n, begin, end, method, which, dim):
+    import xarray as xr
+    import pandas as pd
+    import hdc.algo  # noqa
+    rng = np.random.default_rng(L * 131 + len(str(labels)))
+    data = rng.normal(size=(L, 2, 2))
+    data[rng.random(size=data.shape) < 0.2] = np.nan
+    if dim == "time":
+        base = pd.Timestamp("2000-01-01")
+        conv = lambda k: base + pd.Timedelta(days=int(k))  # noqa: E731
+    else:
+        conv = lambda k: int(k)  # noqa: E731
+    coords = [conv(k) for k in labels]
+    da = xr.DataArray(data, dims=(dim, "y", "x"), coords={dim: coords})
+    kw = {"n": n, "dim": dim, "method": method}
+    if begin is not None:
+        kw["begin"] = conv(begin)
+    if end is not None:
+        kw["end"] = conv(end)
+    pb = _locate(labels, begin, method) if begin is not None else L - 1
+    pe = _locate(labels, end, method) if end is not None else 0
+    nn = n if n is not None else L
+    expect_error = pb is None or pe is None
+    try:
+        got = list(getattr(da.hdc.iteragg, which)(**kw))
+        err = None
+    except Exception as e:  # noqa
+        got, err = None, f"{type(e).__name__}: {e}"[:200]
+    if expect_error:
+        ok = err is not None and err.startswith("ValueError")
+        return {"violates": not ok, "why": "unlocatable label must raise ValueError", "got": None if got is None else len(got), "err": err}
+    if err is not None:
+        return {"violates": True, "why": "unexpected exception", "err": err}
+    exp = [last for last in range(L - 1, -1, -1) if pe <= last <= pb and last - nn + 1 >= 0]
+    bad = []
+    if len(got) != len(exp):
+        bad.append(f"yielded {len(got)} results, expected {len(exp)}")
+    for g, last in zip(got, exp):
+        lo = last - nn + 1
+        sl = data[lo:last + 1]
+        if which == "full":
+            ref = sl
+        else:
+            with np.errstate(all="ignore"):
+                import warnings
+                with warnings.catch_warnings():
+                    warnings.simplefilter("ignore")
+                    ref = (np.nansum if which == "sum" else np.nanmean)(sl, axis=0)
+        val = np.asarray(g.values)
+        if which != "full" and dim == "time":
+            val = val.squeeze(0) if val.ndim == 3 else val
+        if val.shape != ref.shape or not np.allclose(val, ref, equal_nan=True):
+            bad.append(f"window ending at {last}: wrong values")
+        a = g.attrs
+        if str(a.get("agg_start")) != str(da[dim].to_index()[lo]) or str(a.get("agg_stop")) != str(da[dim].to_index()[last]) \
+                or a.get("agg_n") != nn:
+            bad.append(f"window ending at {last}: attrs {a}")
+        if which != "full" and dim == "time":
+            if "time" not in g.dims or pd.Timestamp(g.time.values[0]) != coords[last]:
+                bad.append(f"window ending at {last}: time stamp")
+    return {"violates": bool(bad), "bad": bad[:5], "n_got": len(got), "n_exp": len(exp)}
